@@ -10,9 +10,9 @@ import ProfiVerif.Lemmas.GsdFaithful
 namespace PV.Gsd.Peg
 open PV.Gsd
 
-/-- The PEG answers the expected tree on a canonical settings file (given the fuel check of the
-generated grammar). -/
-theorem parseGsd_file (hf : fuelCheck 1000 = true) (s : Setting) (ss : List Setting) (h : ∀ x ∈ s :: ss, LineCanon x) :
+/-- The PEG answers the expected tree on a canonical file (given the fuel check of the generated
+grammar). -/
+theorem parseGsd_file (hf : fuelCheck 1000 = true) (s : Item) (ss : List Item) (h : ∀ x ∈ s :: ss, x.Good) :
     parseGsd (fileText (s :: ss)) = some (some (filePair (s :: ss))) := by
   have := (gsd_ok s ss h).at (eval_gsd_fuel hf (fileText (s :: ss)))
   unfold parseGsd
@@ -20,11 +20,22 @@ theorem parseGsd_file (hf : fuelCheck 1000 = true) (s : Setting) (ss : List Sett
   simp only [mk] at this
   rw [this]
 
-theorem parse_file (hf : fuelCheck 1000 = true) (s : Setting) (ss : List Setting) (h : ∀ x ∈ s :: ss, LineCanon x) :
-    parse (fileText (s :: ss)) = some (interp ((s :: ss).map Stmt.setting)) := by
+/-- Text → description for a canonical file of good items. -/
+theorem parse_items (hf : fuelCheck 1000 = true) (s : Item) (ss : List Item) (h : ∀ x ∈ s :: ss, x.Good) :
+    parse (fileText (s :: ss)) = some (interp ((s :: ss).map Item.stmt)) := by
   unfold parse
   rw [parseGsd_file hf s ss h]
-  simp only [toAst_filePair (s :: ss) (fun x hx => (h x hx).1)]
+  simp only [toAst_filePair (s :: ss) h]
+
+theorem parse_file (hf : fuelCheck 1000 = true) (s : Setting) (ss : List Setting) (h : ∀ x ∈ s :: ss, LineCanon x) :
+    parse (fileText ((s :: ss).map settingItem)) = some (interp ((s :: ss).map Stmt.setting)) := by
+  have := parse_items hf (settingItem s) (ss.map settingItem) (by
+    intro x hx
+    simp only [List.mem_cons, List.mem_map] at hx
+    rcases hx with rfl | ⟨y, hy, rfl⟩
+    · exact settingItem_good (h s (List.mem_cons_self ..))
+    · exact settingItem_good (h y (List.mem_cons_of_mem _ hy)))
+  simpa [List.map_map, Function.comp_def, settingItem] using this
 
 /-! ### The scalar part of a description -/
 
@@ -101,7 +112,7 @@ theorem scalar_lines_canon (d : Desc) (hq : ScalarsNoQuote d) : ∀ x ∈ settin
 
 /-- The canonical text of the scalar part of a description: `#Profibus_DP` and 42 lines
 `GSD_Revision=…`, `Vendor_Name="…"`, …, `MaxTsdr_12M=…`. -/
-def scalarText (d : Desc) : Str := fileText (settingsOf (scalarStmts d))
+def scalarText (d : Desc) : Str := fileText ((settingsOf (scalarStmts d)).map settingItem)
 
 theorem parse_scalarText (hf : fuelCheck 1000 = true) (d : Desc) (hq : ScalarsNoQuote d) :
     parse (scalarText d) = some (interp (scalarStmts d)) := by
